@@ -1,0 +1,27 @@
+//go:build verif
+
+package reporter
+
+// Contracts checked by /verif/engine (govc). Comment-only file: no code is compiled from it.
+
+//@ func Summary.CountBySeverity [C05]
+//@   ensures result != nil
+//@   ensures forall k checks.Severity :: has(result, k) <==> (exists i int :: 0 <= i && i < len(s.reports) && s.reports[i].Problem.Severity == k)
+//@   ensures forall k checks.Severity :: has(result, k) ==> result[k] >= 1
+//@   ensures forall i int :: 0 <= i && i < len(s.reports) ==> has(result, s.reports[i].Problem.Severity)
+//@   loop 1 invariant 0 <= iter && iter <= len(s.reports) && m != nil
+//@   loop 1 invariant forall k checks.Severity :: has(m, k) <==> (exists i int :: 0 <= i && i < iter && s.reports[i].Problem.Severity == k)
+//@   loop 1 invariant forall k checks.Severity :: has(m, k) ==> m[k] >= 1
+//@   loop 1 invariant forall i int :: 0 <= i && i < iter ==> has(m, s.reports[i].Problem.Severity)
+//@   safe
+
+// Duplicate folding only sets IsDuplicate / Duplicates: the problems (and so the severities) are untouched.
+//@ func Summary.Dedup [C05]
+//@   requires s != nil
+//@   ensures len(s.reports) == old(len(s.reports))
+//@   ensures forall i int :: 0 <= i && i < len(s.reports) ==> s.reports[i].Problem == old(s.reports[i].Problem) && s.reports[i].Path == old(s.reports[i].Path)
+//@   loop 1 invariant len(s.reports) == old(len(s.reports))
+//@   loop 1 invariant forall i int :: 0 <= i && i < len(s.reports) ==> s.reports[i].Problem == old(s.reports[i].Problem) && s.reports[i].Path == old(s.reports[i].Path)
+//@   loop 2 invariant len(s.reports) == old(len(s.reports))
+//@   loop 2 invariant forall i int :: 0 <= i && i < len(s.reports) ==> s.reports[i].Problem == old(s.reports[i].Problem) && s.reports[i].Path == old(s.reports[i].Path)
+//@   safe
